@@ -20,19 +20,25 @@ ASSUME = ["E1 on the bounded box decides feasibility (tasks are confined to [0,H
 NAME_RE = re.compile(r"->\s*(\w+)\(\s*name='((?:[^'\\]|\\.)*)'", re.S)
 
 
-def diagnose(program, debug=True):
+def diagnose(program, debug=True, calls=1):
+    """Run solve() `calls` times on one solver object; what is returned and printed by the LAST call."""
     import processscheduler as ps
 
     built = dsl.build(program)
+    text = ""
     with boot.no_fd2():
-        with boot.quiet(capture=True) as buf:
-            try:
+        try:
+            with boot.quiet(capture=True):
                 solver = ps.SchedulingSolver(problem=built.pb, debug=debug, max_time=30)
-                sol = solver.solve()
-                err = None
-            except Exception as e:
-                sol, err = None, f"{type(e).__name__}: {e}"[:150]
-    text = buf.getvalue()
+            sol, err = None, None
+            for _ in range(calls):
+                with boot.quiet(capture=True) as buf:
+                    try:
+                        sol = solver.solve()
+                    finally:
+                        text = buf.getvalue()
+        except Exception as e:
+            sol, err = None, f"{type(e).__name__}: {e}"[:150]
     named = None
     if "Unsatisfied constraints" in text:
         named = [m.group(2) for m in NAME_RE.finditer(text.split("Unsatisfied constraints", 1)[1])]
@@ -87,6 +93,21 @@ def job(j):
                         st3 = ex.Stats()
                         l2 = list(ex.explore(s3._solver, ex.primaries(b3), st3))
                         res["checks"] += st3.checks
+                        if not l2:
+                            # asked again, the same solver object must still give a diagnosis that holds
+                            sol_2, err_2, text_2, named_2, _b2 = diagnose(program, debug=True, calls=2)
+                            if err_2 or sol_2 or named_2 is None:
+                                record("second-call-gives-no-diagnosis", err_2 or text_2[-200:])
+                            elif set(named_2) != set(named):
+                                b4 = dsl.build(program)
+                                for cname, cobj in b4.pb.constraints.items():
+                                    if cname not in named_2:
+                                        cobj._z3_assertions = []
+                                st4 = ex.Stats()
+                                l4 = list(ex.explore(analysis.make_solver(b4, {})._solver, ex.primaries(b4), st4)) if all(n in b4.pb.constraints for n in named_2) else [None]
+                                res["checks"] += st4.checks
+                                if l4:
+                                    record("second-call-names-a-satisfiable-set", f"first call named {named}, second call on the same solver named {named_2}")
                         if l2:
                             record("named-set-is-satisfiable", f"named {named}; the problem with only these constraints admits {len(l2)} schedules",
                                    n_named=min(len(named), 3), optional_constraint=any(cons_by_name[n]["args"].get("optional") for n in cons_by_name
